@@ -536,6 +536,14 @@ def run(program, ctx):
     c16.rule_handlers(program, ctx, prop=P, rid="C06.handlers")
     rule_noop(program, ctx)
     rule_reap(program, ctx)
+    from . import c07
+
+    c07.rule_enqueue(program, ctx, prop=P, rid="C06.enqueue")
+    c07.rule_ctxmgr(program, ctx, prop=P, rid="C06.ctxmgr")
+    from . import c03
+
+    # a validator verdict replayed from memory refuses (or admits) an event whose verdict has changed meanwhile
+    c03.rule_chain(program, ctx, prop=P, rid="C06.chain")
     ctx.not_decided += [
         "'retrievable thereafter' as an end-to-end fact (engine semantics, LMDB writer thread having committed)",
         "'never refused except as duplicate' for all well-formed events (value-dependent faults inside pre_save/process_tags)",
